@@ -83,7 +83,10 @@ func runC18(c *Ctx) {
 	}
 
 	paths := c.enum("C18.process", proc, PathOpts{})
-	type arm struct{ ctype, key string; indent bool }
+	type arm struct {
+		ctype, key string
+		indent     bool
+	}
 	arms := map[string]arm{}
 	nFwd := 0
 	for _, pa := range paths {
@@ -137,7 +140,9 @@ func runC18(c *Ctx) {
 		encStep := calls[idx["(*encoding/json.Encoder).Encode"][0]]
 		fmtStep := calls[idx["(*eventlogger.Event).FormattedAs"][0]]
 		// sign's error tested nil on this path
-		if pol, found := hasAtom(pa, func(at Atom) bool { return at.Op == "eq" && at.L.V == signStep.In.(ssa.Value) && at.R.Is("Const", "nil") }); !found || !pol {
+		if pol, found := hasAtom(pa, func(at Atom) bool {
+			return at.Op == "eq" && at.L.V == signStep.In.(ssa.Value) && at.R.Is("Const", "nil")
+		}); !found || !pol {
 			r.Bad("C18.sign-err", "Process:forward-after-sign", p.InstrPos(signStep.In), "the event is forwarded on a path that does not establish that signing succeeded (event forwarded unsigned on signer failure)")
 			continue
 		}
@@ -200,7 +205,9 @@ func runC18(c *Ctx) {
 			(strings.HasPrefix(ft["ID"], "Call[invoke cloudevents.ID.ID](") || ft["ID"] == "Extract[0](Call[formatter_filters/cloudevents.newId]())") &&
 			ft["Serialized"] == "" && ft["SerializedHmac"] == ""
 		// Data() used iff the payload implements Data; schema set iff f.Schema != nil
-		if pol, found := hasAtom(pa, func(at Atom) bool { return at.Op == "true" && at.L.Op == "Extract" && at.L.Name == "1" && at.L.Args[0].Is("Assert", "cloudevents.Data") }); found {
+		if pol, found := hasAtom(pa, func(at Atom) bool {
+			return at.Op == "true" && at.L.Op == "Extract" && at.L.Name == "1" && at.L.Args[0].Is("Assert", "cloudevents.Data")
+		}); found {
 			if pol != strings.HasPrefix(ft["Data"], "Call[invoke") {
 				okLit = false
 			}
@@ -258,8 +265,12 @@ func runC18(c *Ctx) {
 			continue
 		}
 		if !predNilPol {
-			keepPol, keepFound := hasAtom(pa, func(at Atom) bool { return at.Op == "true" && at.L.Op == "Extract" && at.L.Name == "0" && at.L.Args[0].Op == "Call" && at.L.Args[0].Name == "dynamic" })
-			errPol, errFound := hasAtom(pa, func(at Atom) bool { return at.Op == "eq" && at.L.Op == "Extract" && at.L.Name == "1" && at.L.Args[0].Op == "Call" && at.L.Args[0].Name == "dynamic" && at.R.Is("Const", "nil") })
+			keepPol, keepFound := hasAtom(pa, func(at Atom) bool {
+				return at.Op == "true" && at.L.Op == "Extract" && at.L.Name == "0" && at.L.Args[0].Op == "Call" && at.L.Args[0].Name == "dynamic"
+			})
+			errPol, errFound := hasAtom(pa, func(at Atom) bool {
+				return at.Op == "eq" && at.L.Op == "Extract" && at.L.Name == "1" && at.L.Args[0].Op == "Call" && at.L.Args[0].Name == "dynamic" && at.R.Is("Const", "nil")
+			})
 			if !(keepFound && keepPol && errFound && errPol) {
 				r.Bad("C18.pred", "Process:predicate", p.InstrPos(ret), "the event is forwarded although the predicate did not return (true, nil)")
 				continue
@@ -273,7 +284,9 @@ func runC18(c *Ctx) {
 		if rv == nil {
 			continue
 		}
-		keepPol, keepFound := hasAtom(pa, func(at Atom) bool { return at.Op == "true" && at.L.Op == "Extract" && at.L.Name == "0" && at.L.Args[0].Op == "Call" && at.L.Args[0].Name == "dynamic" })
+		keepPol, keepFound := hasAtom(pa, func(at Atom) bool {
+			return at.Op == "true" && at.L.Op == "Extract" && at.L.Name == "0" && at.L.Args[0].Op == "Call" && at.L.Args[0].Name == "dynamic"
+		})
 		if keepFound && !keepPol {
 			r.TableRows++
 			if !(isNilConst(rv[0]) && isNilConst(rv[1])) {
@@ -402,7 +415,9 @@ func runC18(c *Ctx) {
 			}
 			// the converse: success without signing only after THIS call saw no signer, or a type that is not listed
 			if isNilConst(rv[0]) {
-				nilSigner, f1 := hasAtom(pa, func(at Atom) bool { return at.Op == "eq" && at.L.Is("Field", "Signer") && at.L.Args[0].IsParam("0:f") && at.R.Is("Const", "nil") })
+				nilSigner, f1 := hasAtom(pa, func(at Atom) bool {
+					return at.Op == "eq" && at.L.Is("Field", "Signer") && at.L.Args[0].IsParam("0:f") && at.R.Is("Const", "nil")
+				})
 				listed, f2 := hasAtom(pa, func(at Atom) bool {
 					return at.Op == "true" && at.L.Op == "Call" && strings.HasSuffix(at.L.Name, "strutil.StrListContains") &&
 						at.L.Args[0].String() == "Field[SignEventTypes](Param(0:f))" && at.L.Args[1].String() == "Field[Type](Param(2:e))"
